@@ -43,6 +43,8 @@ def eval_enum_cond(test: ast.AST, assign: Dict[str, Tuple[str, str]]) -> Optiona
         if any(v is True for v in vals):
             return True
         return False if all(v is False for v in vals) else None
+    if isinstance(test, ast.Constant) and isinstance(test.value, bool):
+        return test.value
     if isinstance(test, ast.UnaryOp) and isinstance(test.op, ast.Not):
         v = eval_enum_cond(test.operand, assign)
         return None if v is None else (not v)
